@@ -188,8 +188,76 @@ def classify(case, impl, spec, spec_codeflags, tabn):
     return sig
 
 
+CASE_KEYS = ('mode', 'mt', 'mt_as', 'mt_container', 'scale', 'entries', 'steps', 'via', 'tmpdir', 'read_as')
+
+
 def impl_json(case):
-    return json.dumps({k: case[k] for k in ('mode', 'mt', 'mt_as', 'mt_container', 'scale', 'entries')})
+    return json.dumps({k: case[k] for k in CASE_KEYS if k in case})
+
+
+def public(case):
+    return {k: case[k] for k in CASE_KEYS if k in case and k != 'tmpdir'}
+
+
+def next_state(spec_expanded, entries, next_id):
+    """entries after a step, from the SPEC's output: kept objects keep their id, inserted ones are numbered in
+    (entry, position) order — the same rule the harness uses"""
+    out = []
+    for word, e in zip(spec_expanded.split(' ')[1:], entries):
+        if e.get('cls') is None:
+            out.append(e); continue
+        msgs = []
+        for it in [x for x in word[2:].split(',') if x]:
+            if it[0] == 'K':
+                t, i = it[1:].split(':')
+                msgs.append([int(t), int(i)])
+            else:
+                msgs.append([int(it[1:]), next_id]); next_id += 1
+        out.append(dict(e, msgs=msgs))
+    return out, next_id
+
+
+def run_sequences(ctx, seqs, model, tabn):
+    """multi-step histories on the same MessageData objects: after every step the implementation's lists are compared
+    with the SPEC applied to the lists as they were before that step"""
+    impl = vf.run_parallel(HARNESS, [impl_json(q) for q in seqs], env=vf.IMPL_ENV)
+    impl = [i.split(' ;; ') for i in impl]
+    state = [(q['entries'], sum(len(e.get('msgs', [])) for e in q['entries'])) for q in seqs]
+    alive = [True] * len(seqs)
+    for k in range(max(len(q['steps']) for q in seqs)):
+        idx = [i for i, q in enumerate(seqs) if alive[i] and k < len(q['steps'])]
+        if not idx:
+            break
+        pseudo = [dict(seqs[i]['steps'][k], entries=state[i][0], scale=1) for i in idx]
+        mdl = vf.run_parallel(model, [model_line('M', c, tabn, 'code') for c in pseudo])
+        spec = vf.run_parallel(model, [model_line('S', c, tabn, 'attr') for c in pseudo])
+        spec_c = vf.run_parallel(model, [model_line('S', c, tabn, 'code') for c in pseudo])
+        for i, c, m, s_, sc in zip(idx, pseudo, mdl, spec, spec_c):
+            q = seqs[i]
+            ctx.count('history-steps')
+            if k >= len(impl[i]):
+                alive[i] = False; continue
+            raw = impl[i][k]
+            if raw.startswith('NUMPYEXC'):
+                ctx.count('history:numpy-conversion-raised-not-judged'); alive[i] = False; continue
+            obs, flags, _ = split_impl(raw)
+            me, se, sce = expand(m, c), expand(s_, c), expand(sc, c)
+            numpy_before = any(st.get('numpy') for st in q['steps'][:k + 1])
+            if obs != se or flags:
+                sig = sig_of(c, obs, flags, se, sce, tabn)
+                if sig.get('kind') != 'p1-time-via-details-type-not-aligned':
+                    sig['history'] = 'after-to_numpy' if numpy_before else 'after-earlier-alignment' if k > 0 else 'first-step'
+                rec = {'case': public(q), 'failing_step': k, 'lists_before_step': c['entries'], 'impl': raw, 'model': me, 'spec': se}
+                ctx.violation(sig, 'step %d of a history on the same MessageData objects (%s): time_align_data(mode=%s, message_types=%s) on %s: '
+                              'implementation gives %s, the property requires %s'
+                              % (k + 1, ' -> '.join(('to_numpy, ' if st.get('numpy') else '') + st['mode'] + str(st['mt']) for st in q['steps'][:k + 1]),
+                                 c['mode'], c['mt'], [(entry_key(e), [t for t, _ in e.get('msgs', [])]) for e in c['entries']], obs + ' ' + ' '.join(flags), se), rec)
+                alive[i] = False
+                continue
+            if obs != me:
+                ctx.broken_correspondence('time-alignment model and implementation differ inside a history: impl %s model %s' % (obs, me),
+                                          {'case': public(q), 'step': k})
+            state[i] = next_state(se, c['entries'], state[i][1])
 
 
 def evaluate(cases, model, tabn):
@@ -226,13 +294,20 @@ def shrink(case, sig, model, tabn):
         for c, i, s, sc in zip(cands, impl, spec, spec_c):
             obs, flags, _ = split_impl(i)
             se = expand(s, c)
-            if (obs != se or flags) and sig_of(c, obs, flags, se, expand(sc, c), tabn) == sig:
+            if (obs != se or flags) and full_sig(c, obs, flags, se, expand(sc, c), tabn) == sig:
                 nxt = c
                 break
         if nxt is None:
             break
         cur = nxt
     return cur
+
+
+def full_sig(case, obs, flags, spec_e, spec_c_e, tabn):
+    sig = sig_of(case, obs, flags, spec_e, spec_c_e, tabn)
+    if case.get('via') == 'read' and sig.get('kind') != 'p1-time-via-details-type-not-aligned':
+        sig['via'] = 'read'
+    return sig
 
 
 def sig_of(case, obs, flags, spec_e, spec_c_e, tabn):
@@ -259,7 +334,7 @@ def run(ctx):
     cdir = os.path.join(vf.VERIF, 'corpus', 'C15')
     if os.path.isdir(cdir):
         for f in sorted(os.listdir(cdir)):
-            if f.endswith('.json'):
+            if f.endswith('.json') and not f.endswith('.seq.json'):
                 c = json.load(open(os.path.join(cdir, f)))
                 c = c.get('case', c)
                 if all(entry_key(e) in tabn for e in c['entries']):
@@ -310,6 +385,48 @@ def run(ctx):
         c = G.random_case(120, 60)
         G.cases.append(c)
 
+    # ---- histories on the same MessageData objects (to_numpy before/between, repeated alignments) ---------
+    seqs = []
+    sdir = os.path.join(vf.VERIF, 'corpus', 'C15')
+    if os.path.isdir(sdir):
+        for f in sorted(os.listdir(sdir)):
+            if f.endswith('.seq.json'):
+                q = json.load(open(os.path.join(sdir, f)))
+                q = q.get('case', q)
+                if all(entry_key(e) in tabn for e in q['entries']):
+                    seqs.append(q)
+    for _ in range(20000 if ctx.thorough else 3000):
+        nt = r.choice([2, 3, 3, 4])
+        names = r.sample(T, nt)
+        if r.random() < 0.2:
+            names.append(r.choice(G.timeless))
+        times = [sorted(set(r.randint(0, 5) for _ in range(r.randint(0, 5)))) for _ in names]
+        if r.random() < 0.15:
+            times = [[r.randint(0, 5) for _ in range(r.randint(0, 5))] for _ in names]
+        steps = []
+        for k in range(r.choice([2, 3, 3, 4])):
+            mt = None if r.random() < 0.25 else [n for n in names if r.random() < 0.6]
+            steps.append({'mode': r.choice(['D', 'I', 'D', 'I', 'N']), 'mt': mt, 'mt_as': r.choice(['type', 'class', 'mixed']),
+                          'mt_container': r.choice(['list', 'tuple', 'set']), 'numpy': r.random() < (0.5 if k == 0 else 0.2)})
+        seqs.append({'scale': 1, 'entries': [G.entry(n, m) for n, m in zip(names, G.ids(times))], 'steps': steps})
+    ctx.log('%d histories' % len(seqs))
+    run_sequences(ctx, seqs, model, tabn)
+    for q in seqs:
+        ctx.case(('seq', [(entry_key(e), e['msgs']) for e in q['entries']], [(s['mode'], s['mt'], s['numpy']) for s in q['steps']]))
+        ctx.count('origin:history')
+
+    # ---- the same property through DataLoader.read(time_align=..., aligned_message_types=...) ----------------
+    for _ in range(3000 if ctx.thorough else 500):
+        nt = r.choice([2, 3, 3, 4])
+        names = r.sample(T, nt)
+        if r.random() < 0.3:
+            names.append(r.choice(G.timeless))
+        times = [sorted(set(r.randint(0, 6) for _ in range(r.randint(0, 6)))) for _ in names]
+        mt = None if r.random() < 0.2 else [n for n in names if r.random() < 0.65] + ([r.choice(T)] if r.random() < 0.15 else [])
+        G.cases.append({'via': 'read', 'tmpdir': ctx.tmp, 'read_as': r.choice(['type', 'class']), 'mode': r.choice(MODES), 'mt': mt,
+                        'mt_as': r.choice(['type', 'class', 'mixed']), 'mt_container': r.choice(['list', 'tuple', 'set']), 'scale': 1,
+                        'entries': [G.entry(n, m) for n, m in zip(names, G.ids(times))], 'origin': 'read'})
+
     cases = G.cases
     ctx.log('%d cases' % len(cases))
     impl, mdl, spec, spec_c = evaluate(cases, model, tabn)
@@ -318,6 +435,8 @@ def run(ctx):
     nviol = {}
     advisory_lists = 0
     for c, i, m, s, sc in zip(cases, impl, mdl, spec, spec_c):
+        if i.startswith('SKIP:'):
+            ctx.count('read-case-skipped:' + i[5:45]); continue
         obs, flags, adv = split_impl(i)
         me, se, sce = expand(m, c), expand(s, c), expand(sc, c)
         naligned = sum(1 for e in c['entries'] if tabn[entry_key(e)]['code'] and (c['mt'] is None or entry_key(e) in c['mt']))
@@ -328,18 +447,17 @@ def run(ctx):
             ctx.count('with-repeated-time-in-a-type')
         if ',F' in se or ':F' in se:
             ctx.count('result-has-inserted-default')
-        rec = {'case': {k: c[k] for k in ('mode', 'mt', 'mt_as', 'mt_container', 'scale', 'entries')}, 'impl': i, 'model': me, 'spec': se}
+        rec = {'case': public(c), 'impl': i, 'model': me, 'spec': se}
         if obs != se or flags:
-            sig = sig_of(c, obs, flags, se, sce, tabn)
+            sig = full_sig(c, obs, flags, se, sce, tabn)
             key = json.dumps(sig, sort_keys=True)
             nviol[key] = nviol.get(key, 0) + 1
             if nviol[key] == 1:
                 small = shrink(c, sig, model, tabn)
                 ii, mm, ss, _ = evaluate([small], model, tabn)
-                rec = {'case': {k: small[k] for k in ('mode', 'mt', 'mt_as', 'mt_container', 'scale', 'entries')},
-                       'impl': ii[0], 'model': expand(mm[0], small), 'spec': expand(ss[0], small)}
-                ctx.violation(sig, 'time_align_data(mode=%s, message_types=%s) on %s: implementation gives %s, the property requires %s'
-                              % (small['mode'], small['mt'], [(entry_key(e), [t for t, _ in e.get('msgs', [])]) for e in small['entries']],
+                rec = {'case': public(small), 'impl': ii[0], 'model': expand(mm[0], small), 'spec': expand(ss[0], small)}
+                ctx.violation(sig, '%s(mode=%s, message_types=%s) on %s: implementation gives %s, the property requires %s'
+                              % ('DataLoader.read(time_align, aligned_message_types) [types given as %s]' % small.get('mt_as') if small.get('via') == 'read' else 'time_align_data', small['mode'], small['mt'], [(entry_key(e), [t for t, _ in e.get('msgs', [])]) for e in small['entries']],
                                  split_impl(ii[0])[0] + (' ' + ' '.join(split_impl(ii[0])[1]) if split_impl(ii[0])[1] else ''), rec['spec']), rec)
             else:
                 ctx.violation(sig, 'see first', rec)
@@ -370,6 +488,8 @@ def run(ctx):
                             'lacking P1 time / having it only through `details` in each position; 4 types sampled (%s); mode NONE, empty dict, single type, '
                             'message types without payload class; random dicts of 2-4 types with up to 12 and up to 120 messages, unsorted and repeated stamps, '
                             'dyadic non-integer stamps (scale 4, 8), message_types given as types or classes in list/tuple/set, including types not in the dict. '
+                            'Also: histories of 2-4 steps on the same MessageData objects (to_numpy before/between steps, changing mode and selection), judged after every step; '
+                            'and the property observed through DataLoader.read(time_align, aligned_message_types) on generated log files, selection given as types, classes or mixed. '
                             'Identity is observed with `is`, content by a structural snapshot of every attribute before and after, inserted messages against a '
                             'fresh cls(). A case is distinct by (mode, message_types, per-type stamp lists).'
                             % (len(T), '60000 in thorough, 1500 in quick' if ctx.thorough else '1500'))
